@@ -10,6 +10,7 @@ CONSTANTS
   ExtNames = {"a"}
   MaxFiles = {2, 1000000}
   FaultSet <- FaultsQuick
+  Restarts = {"keep"}
   WhatIf = "no_reverify"
 SPECIFICATION Spec
 INVARIANT NoViolation
